@@ -26,9 +26,12 @@ def observe(tree):
                 trees.left_sibling(n)
                 treeanalysis.gap_degree_node(n)
                 trees.terminal_blocks(n)
+                list(trees.dominance(n))          # a generator: ask for all of it
             if len(nodes) > 1:
                 trees.lca(nodes[-1], nodes[len(nodes) // 2])
-                trees.dominance(nodes[-1])
+                for n in nodes[1:4]:
+                    list(trees.preorder(n))
+                    trees.levels(n)
             trees.levels(tree)
             treeanalysis.has_gaps(tree)
             treeanalysis.gap_type(tree)
@@ -57,6 +60,7 @@ MUTATORS = [
     ("root_attach", lambda t: transform.root_attach(t)),
     ("punctuation_delete", lambda t: transform.punctuation_delete(t, quiet=True)),
     ("collapse_unary_chains", lambda t: transform.collapse_unary_chains(t)),
+    ("add_topnode", lambda t: transform.add_topnode(t)),
 ]
 
 
@@ -65,6 +69,8 @@ def mutate(rng, tree, allowed=None):
     refuses or empties the tree"""
     name, f = rng.choice([m for m in MUTATORS if allowed is None or m[0] in allowed])
     sid = tree.data.get('sid')
+    if name == "collapse_unary_chains" and len(trees.unordered_terminals(tree)) < 2:
+        return tree, name + ":skipped"          # a one-token sentence collapses to a bare token, which is no tree of the properties
     try:
         with quiet():
             r = f(tree)
